@@ -163,8 +163,9 @@ def main(check_name, tier, replay=None):
     baseline_mode = tier == "baseline"
     plan = mod.plan("thorough" if baseline_mode else tier, seed, complete=baseline_mode)
     items = list(plan["items"])
-    base = findings.load_baseline(mod.BASELINE) if getattr(mod, "BASELINE", None) else None
-    base_b = findings.load_baseline(mod.BASELINE + ".B") if getattr(mod, "BASELINE", None) else None
+    canon = getattr(mod, "canon_signature", None)
+    base = findings.load_baseline(mod.BASELINE, canon) if getattr(mod, "BASELINE", None) else None
+    base_b = findings.load_baseline(mod.BASELINE + ".B", canon) if getattr(mod, "BASELINE", None) else None
     group = os.environ.get("VERIF_GROUP")
     known = findings.known_for(prop)
     inconclusive = []
